@@ -211,6 +211,28 @@ def build_harness(feats, bins=("director",)):
     return {b: os.path.join(tdir, "debug", b) for b in bins}
 
 
+def prune_cache(max_age_h=3.0, keep=120):
+    """The observation cache is keyed by the content of /repo's working tree, so every edited tree
+    leaves directories behind (thousands of small files each).  Drop those that have not been used
+    for a few hours, and beyond `keep` directories the oldest ones - never a fresh one: another
+    check may be filling it right now."""
+    d = os.path.join(CACHE, "obs")
+    try:
+        ents = [(os.path.getmtime(os.path.join(d, e)), e) for e in os.listdir(d)]
+    except OSError:
+        return
+    now = time.time()
+    ents.sort(reverse=True)
+    for i, (mt, e) in enumerate(ents):
+        age_h = (now - mt) / 3600.0
+        if age_h > max_age_h or (i >= keep and age_h > 0.5):
+            shutil.rmtree(os.path.join(d, e), ignore_errors=True)
+            try:
+                os.remove(os.path.join(CACHE, "obs-%s.lock" % e))
+            except OSError:
+                pass
+
+
 # ----------------------------------------------------------------------------- running scripts
 def _run_shard(binary, shard, timeout):
     """Run one shard; if the process dies or hangs, fall back to one script at a time and mark
